@@ -231,6 +231,16 @@ def check_graphs(seeds):
                 problems.append((label, dict(cur, **nxt)))
             elif r != 'unsat':
                 problems.append((label, 'unknown'))
+        # every node of the graph is a value of the node variable as declared (otherwise the obligations below,
+        # which range over the valuations of the declared bits, would silently skip that node)
+        for u in g['nodes']:
+            sol = z3.Solver()
+            sol.add(ND == z3.BitVecVal(u, W))
+            r = str(sol.check())
+            q[r] = q.get(r, 0) + 1
+            if r == 'unsat':
+                problems.append((f'node {u} is not a value of the node variable as declared ({table["nd"].get("dom")}, '
+                                 f'{table["nd"].get("width")} bits)', dict(nd=u, unrepresentable=True)))
         chk('action of the owner differs from the edges of the graph', [in_graph, A != act])
         chk('initial condition differs from the initial nodes and labels', [in_graph, I != init])
         for u in ([] if g['self_loops'] else dead):   # with self_loops every node, dead ends included, gets its loop
@@ -299,6 +309,10 @@ def replay(payload):
     if c['kind'] == 'raise':
         return False, 'graph_to_logic accepted the graph'
     vals = c['values']
+    if vals.get('unrepresentable'):
+        from vlib import link
+        lo, hi = link.rep_range(aut.vars['nd'])
+        return not (lo <= vals['nd'] <= hi), f'node variable declared as {aut.vars["nd"].get("dom")}: bit range {lo}..{hi}'
     if vals['nd'] not in g['nodes']:
         return False, 'node value outside the graph'
 
